@@ -359,6 +359,7 @@ func (x *Exec) load(st *State, key string, t types.Type, pos token.Pos) SVal {
 		// havocked before it was ever read (by a loop or by callbacks of a nested subscription)
 		v := x.symbolic(st, fmt.Sprintf("%s@unknown.%d", key, len(st.Events)), t)
 		v.Src = key
+		v = x.maybeNil(v, fmt.Sprintf("%s@unknown.%d", key, len(st.Events)), t)
 		st.Heap[key] = v
 		return v
 	}
@@ -384,6 +385,7 @@ func (x *Exec) initial(st *State, key string, t types.Type) SVal {
 	n := len(st.PC)
 	v := x.symbolic(st, key, t)
 	v.Src = key
+	v = x.maybeNil(v, key, t)
 	st.Init[key] = v
 	if x.initFacts == nil {
 		x.initFacts = map[string][]string{}
@@ -430,6 +432,9 @@ func (x *Exec) termOf(st *State, v SVal) string {
 	case KInt, KBool, KU:
 		return v.T
 	case KLoc:
+		if v.NilC != "" {
+			return "(ite " + v.NilC + " nil " + q(x.D.constOf("ptr!"+v.Loc, "U")) + ")"
+		}
 		return q(x.D.constOf("ptr!"+v.Loc, "U"))
 	case KStruct, KTuple:
 		var args, sorts []string
@@ -540,6 +545,12 @@ func (x *Exec) valEq(st *State, a, b SVal) string {
 	}
 	if a.K == KBound && b.K == KBound {
 		return and(boolLit(a.Method == b.Method), x.valEq(st, *a.Recv, *b.Recv))
+	}
+	if a.K == KLoc && a.NilC != "" && b.K == KU && b.T == "nil" {
+		return a.NilC
+	}
+	if b.K == KLoc && b.NilC != "" && a.K == KU && a.T == "nil" {
+		return b.NilC
 	}
 	if (a.K == KClosure || a.K == KBound || a.K == KFn || a.K == KLoc) && b.K == KU && b.T == "nil" {
 		return "false"
@@ -1478,4 +1489,19 @@ func (x *Exec) arraySortOf(t string) string {
 		}
 	}
 	return ""
+}
+
+// maybeNil: a pointer to a scalar / type-parameter cell that is read out of state the function does not control (a
+// captured cell or field as it is when the function starts, or after it was havocked) may be nil: comparisons with nil
+// are then decided by the solver, and a dereference owes `nopanic/nil`. Pointers to tracked objects (structs) and
+// parameters keep the non-nil assumption (stated in DESIGN section 11).
+func (x *Exec) maybeNil(v SVal, name string, t types.Type) SVal {
+	if v.K != KLoc || !strings.HasSuffix(v.Loc, "^") {
+		return v
+	}
+	if _, ok := t.Underlying().(*types.Pointer); !ok {
+		return v
+	}
+	v.NilC = q(x.D.constOf(name+"#isnil", "Bool"))
+	return v
 }
